@@ -29,7 +29,7 @@ GDB_LANES = c02.GDB_LANES
 def generate(seed, tier, index):
     if c02.in_gdb_world():
         return c02.gen_gdb(seed, tier, ID)
-    sc = c02.gen_common(seed, tier, index, profile_choices=('mixed', 'churn', 'objects', 'objects'))
+    sc = c02.gen_common(seed, tier, index, profile_choices=('mixed', 'churn', 'objects', 'objects'), deep_ok=True)
     sc['prop'] = ID
     return sc
 
